@@ -2,6 +2,7 @@ package main
 
 import (
 	"bytes"
+	"sync"
 	"unsafe"
 
 	"github.com/pion/rtp"
@@ -461,11 +462,33 @@ func c04Lengths(pkt *rtp.Packet) []int {
 	return []int{0, hsize - 1, hsize, size - 1, size, size + 1, size + 7}
 }
 
+// legacyEmptyOK probes the tree under test once: does a legacy-profile header without an element
+// marshal without panicking (DESIGN §7 row 4 repaired)?  Only then are such headers generated.
+var (
+	legacyEmptyOnce  sync.Once
+	legacyEmptyValue bool
+)
+
+func legacyEmptyOK() bool {
+	legacyEmptyOnce.Do(func() {
+		legacyEmptyValue = !try(func() { h := rtp.Header{Extension: true, ExtensionProfile: 0x1234}; _, _ = h.Marshal() })
+	})
+	return legacyEmptyValue
+}
+
 // genPacketOdd draws a description outside C01's domain that the model still describes exactly
 // (never a legacy profile without an element: DESIGN §7 row 4 is another group's defect).
 func genPacketOdd(r *Rand, maxPayload int) *PacketIn {
 	p := genPacketWF(r, maxPayload)
-	switch r.Intn(7) {
+	n := 7
+	if legacyEmptyOK() {
+		n = 8
+	}
+	switch r.Intn(n) {
+	case 7: // legacy profile without an element (only on a tree where DESIGN §7 row 4 is repaired)
+		p.H.Extension = true
+		p.H.ExtensionProfile = uint16(r.Pick(0, 0x1234, 0xFFFF))
+		p.Exts = nil
 	case 0: // padding flag without a size
 		p.H.Padding = true
 		p.PadSize = 0
